@@ -91,7 +91,7 @@ from core import Eval
 PROPERTY = "C08"
 DRIVER = "drv_c08"
 PROPS = ["PartituraModel.Props.C08", "PartituraModel.Props.C08Mixed", "PartituraModel.Props.C08Order",
-         "PartituraModel.Props.C08Format"]
+         "PartituraModel.Props.C08Format", "PartituraModel.Props.C08Last"]
 TRUSTED = [
     "C07 (line level): the text of a line <-> its fields; the correspondence reads the written text with its own "
     "regular expressions and the reader's input with the real line parsers; the synthesised old-format files are "
@@ -101,9 +101,11 @@ TRUSTED = [
     "binary64 arithmetic of part_from_matchfile (positions in quarters, divs*(...) before round/int) is modelled "
     "exactly; the implementation's values are within 1e-9 of the exact ones and never near a rounding boundary "
     "for divisions <= 4*480 (checked by the comparison, not proved); in the synthesised old-format files the beat "
-    "times are binary64 reprs, and whether the last bar line lies at or just before a time-signature change is "
-    "float noise: the END of the last bar is not compared for them",
-    "seconds_to_midi_ticks / midi_ticks_to_seconds: binary64 product modelled exactly (C12)",
+    "times are binary64 reprs (since fix C08-17 the last bar is closed with the signature at its first stored note, "
+    "so its END is compared for them too)",
+    "seconds_to_midi_ticks / midi_ticks_to_seconds: binary64 product modelled exactly (C12); times up to hours and "
+    "clocks up to 10000 ticks per quarter / 60000 us per quarter keep the product below 2^31 ticks, far from where "
+    "binary64 loses a tick (2^53); PerformedPart.note_array stores ticks as int32 (larger ticks: outside the domain)",
     "numpy: np.unique(return_index) keeps first occurrences in order after np.sort(idx); np.lexsort and "
     "list.sort are stable, NaN sorts after every number; np.lcm.reduce; np.isclose(a,b,atol) = |a-b| <= atol + "
     "1e-5*|b|; np.searchsorted",
@@ -140,13 +142,24 @@ PARTIAL = [
     "bars without a stored note: inherent (theorem empty_bars_not_stored); the reader extends the previous measure "
     "over them; the beat-position and measure clauses of the oracle are restricted to alignments that touch every "
     "bar between their first and last stored note",
+    "last_bar_closed (end of the last stored bar) assumes, like bars_recovered, that both bar lines lie on the reader's "
+    "division grid and that the bar is complete under the signature in force at its first stored note; that "
+    "`reconstruct` feeds it the first note of the last bar is compared (requests dec / rtq), the measures add_measures "
+    "appends after that bar when something stored sounds or stands later are not modelled (C11) and not judged",
+    "tick_stable / tick_moves speak about exact rationals; that the implementation takes the seconds from the note "
+    "dictionaries (binary64) and not from a narrower copy is what the oracle clauses perf / text-tick check on late "
+    "passages and fine clocks",
     "FractionalSymbolicDuration.bound_integers (numerator or denominator > 1024) is outside the generated domain",
     "additive duration components and tuple divisors occur only in the fixture files (compared, not proved)",
 ]
-RULE = ("seeded random single-divs parts (13 division values, 13 time signatures incl. changes of the beat type, pickups, "
-        "changes of time and key signature at bar starts, 1-3 voices, 1-2 staves, chords, ties within and across bars, "
-        "grace notes, rests, articulations) x random performances (tick grid and off grid, 6 ppq x 6 mpq choices, "
-        "sustain/soft/other controllers incl. duplicates) x random alignments (match/deletion/omitted, insertions, "
+RULE = ("seeded random single-divs parts (13 division values, 18 time signatures x/2 ... x/16 incl. changes of the beat "
+        "type, pickups, changes of time and key signature at bar starts, 1-9 bars, 12% planned shapes: a long stretch in "
+        "a metre counted in eighths/sixteenths (or quarters/halves) followed by a short final section in the other kind; "
+        "1-3 voices, 1-2 staves, chords, ties within and across bars, grace notes, rests, articulations; 30% built through "
+        "a construction history with read-only views in between, gen_score 'warm') x random performances (tick grid and "
+        "off grid, 6 ppq x 6 mpq choices, 30% LATE passages one minute to eight hours into the recording on clocks up "
+        "to 10000 ticks per quarter and down to 60000 us per quarter, sustain/soft/other controllers incl. duplicates, "
+        "30% with the performed part's views read before writing) x random alignments (match/deletion/omitted, insertions, "
         "ornaments, shuffled; 5% without any match, 3% with a single match); every 4th case is re-read after injecting "
         "duplicate / conflicting lines; every 7th with empty lines inserted (also before the version line); every 3rd "
         "is also written as a version 0.1.0-0.5.0 file with the line classes of matchlines_v0 and loaded (a quarter "
@@ -154,8 +167,9 @@ RULE = ("seeded random single-divs parts (13 division values, 13 time signatures
         "distinct = distinct sub-seed (or file) and kind; non-trivial = a file was written and read")
 LEVEL_TEXT = ("Lean 4 theorems about an executable model of the match-file time arithmetic (exporter: measure:beat + "
               "offset/duration fractions; importer: divisions = lcm of denominators, beats->quarters map over time "
-              "signatures of mixed beat types, bar starts from the first note of each bar, round(divs * position)), the "
-              "reader's de-duplication rule, the alignment extraction and the order of the written lines, for all "
+              "signatures of mixed beat types, bar starts from the first note of each bar, round(divs * position), the last "
+              "bar closed with the signature at its first note), the tick arithmetic (a tick survives a perturbation of "
+              "the seconds iff it stays below half a tick), the reader's de-duplication rule, the alignment extraction and the order of the written lines, for all "
               "inputs, plus theorems stating what the format cannot hold (bars without a stored note, bar lines off the "
               "reader's grid); the model is tied to the code by comparing, on generated scores/performances/alignments "
               "(1.0.0 files written by save_match, 0.1.0-0.5.0 files synthesised with the old line classes) and on "
@@ -768,7 +782,7 @@ def eval_v0(desc, ev):
         ev.oracle += oracle_rt(base, res, v0=True)
         corr_load(text, res.get("mf_lines"), ev)
         if "score" in res:
-            corr_dec(text, res, ev, last_bar_end=False)
+            corr_dec(text, res, ev)
         ev.key = "v0:%s:%s" % (base.get("sub"), ".".join(map(str, vt)))
     ev.info["v0"] = ".".join(map(str, vt))
     return ev
@@ -1819,6 +1833,15 @@ def evaluate_(desc):
             feats.append("ts-change")
         if pd["measures"][0][1] - pd["measures"][0][0] < Fraction(4 * pd["divs"] * pd["ts"][0][1], pd["ts"][0][2]):
             feats.append("pickup")
+        if max([n["on"] for n in desc["perf"]["notes"]] + [0.0]) > 60:
+            feats.append("late")
+        if desc["ppq"] >= 2000:
+            feats.append("fine-clock")
+        if pd.get("warm"):
+            feats.append("warm-build")
+        dens = [x[2] for x in sorted(pd["ts"])]
+        if any(a >= 8 and b <= 4 for a, b in zip(dens, dens[1:])):
+            feats.append("eighths-then-quarters")
         ev.info["feats"] = feats
         ev.info["covered"] = bars_covered(desc)
         ev.info["grid"] = grid_ok(desc)
